@@ -373,7 +373,9 @@ func lexComment(l *lexer) stateFn {
 
 // lexRightDelim scans the right delimiter, which is known to be present.
 func lexRightDelim(l *lexer) stateFn {
-	trimSpace := strings.HasPrefix(l.input[l.pos:], rightTrimMarker)
+	// the trim marker counts only together with the delimiter behind it: a custom right delimiter
+	// may itself begin like the marker (" -->")
+	trimSpace := strings.HasPrefix(l.input[l.pos:], l.trimRightDelim)
 	if trimSpace {
 		l.pos += trimMarkerLen
 		l.ignore()
